@@ -87,7 +87,11 @@ EXC = (ValueError, TypeError, AttributeError, KeyError, IndexError)
 def _parse(s):
     import productmd.common as C
     try:
-        d = C.parse_release_id(s)
+        first = C.parse_release_id(s)
+        d = dict(first)
+        first.clear()                                  # the caller owns what it was given
+        if C.parse_release_id(s) != d:
+            return ["err", "HistoryDependent"]
     except EXC as e:
         return exc_result(e)
     r = [d["short"], d["version"], d["type"]]
